@@ -22,6 +22,7 @@ PRELUDE = r"""
 
 typedef struct { const uint64_t* w; size_t n; size_t pos; } In;
 typedef struct { uint64_t* w; size_t n; size_t cap; } Out;
+static int g_count_exceeds_storage = 0;
 static uint64_t in_next(In* in) { if (in->pos >= in->n) { printf("H stream underrun\n"); fflush(stdout); exit(3); } return in->w[in->pos++]; }
 static void out_put(Out* o, uint64_t v) { if (o->n == o->cap) { o->cap = o->cap ? o->cap * 2 : 64; o->w = (uint64_t*) realloc(o->w, o->cap * 8); } o->w[o->n++] = v; }
 static double w2d(uint64_t w) { double d; memcpy(&d, &w, 8); return d; }
@@ -169,7 +170,7 @@ class CEmitter:
                 # a count above the storage capacity is reported as such (never read past the array): marker word + count
                 # (bit-packed arrays physically hold a multiple of 8 elements: the bound is the storage, not the nominal capacity)
                 bound = f"(sizeof({ref}{name}.bitpacked) * 8U)" if isbool else cap
-                L.append(f"if ({ref}{name}.count > {bound}) {{ out_put(o, UINT64_C(0xBADC0DE0BADC0DE0)); out_put(o, (uint64_t) {ref}{name}.count); }} else {{")
+                L.append(f"if ({ref}{name}.count > {bound}) {{ g_count_exceeds_storage = 1; }} else {{")
                 L.append(f"  out_put(o, (uint64_t) {ref}{name}.count);")
                 if isbool:
                     L.append(f"  for (size_t {i} = 0; {i} < {ref}{name}.count; {i}++) out_put(o, ({ref}{name}.bitpacked[{i} / 8U] >> ({i} % 8U)) & 1U); }}")
@@ -219,7 +220,7 @@ class CEmitter:
                 f" else {{ obj = ({n}*) malloc(sizeof({n})); if (mode == 'P') memset(obj, 0xA5, sizeof({n})); else if (mode == 'Z') memset(obj, 0, sizeof({n})); else {n}_initialize_(obj); if (mode == 'V') load_{n}(&in, obj); }}"
                 f" rc = {n}_deserialize_(obj, b, &size); if (rc == 0) dump_{n}(&o, obj); if (mode != 'K') free(obj); break; }}"
             )
-        out.append('  default: break; }\n  printf("D %d %zu ", rc, rc == 0 ? size : 0); print_words(&o); printf("\\n"); free(o.w); free(b); free(w);\n}')
+        out.append('  default: break; }\n  printf("D %d %zu ", rc, rc == 0 ? size : 0); if (g_count_exceeds_storage) { printf("!COUNT"); g_count_exceeds_storage = 0; } else { print_words(&o); } printf("\\n"); free(o.w); free(b); free(w);\n}')
         # M (metadata) -- filled by emit_meta
         out.append(self.emit_meta())
         free_keep = " ".join(f"free(keep_{n});" for n in names)
